@@ -243,26 +243,10 @@ Lemma lex_str_q3 : forall s, lex_str (q3 ++ s) = lex_go true Nrm s.
 Proof. intro s. reflexivity. Qed.
 
 (* raw text inside a docstring template: pre/post are the fixed template parts *)
-Theorem block_doc_inert : forall pre post t rest,
-  safe_doc_raw pre = true -> safe_doc_raw t = true -> closes (post ++ q3 ++ rest) rest ->
-  exists v, lex_str (site_block_doc pre post t ++ rest) = Some (v, rest).
-Proof.
-  intros pre post t rest Hp Ht Hc. unfold site_block_doc. rewrite <- !app_assoc. rewrite lex_str_q3.
-  apply run_docplain; [left; reflexivity | exact Hp |].
-  intros q Hq. apply run_docplain; [exact Hq | exact Ht | exact Hc].
-Qed.
 
 Lemma forallb_docplain_app : forall a b, forallb docplain a = true -> forallb docplain b = true -> forallb docplain (a ++ b) = true.
 Proof. intros a b Ha Hb. rewrite forallb_app, Ha, Hb. reflexivity. Qed.
 
-Theorem tag_doc_inert : forall t rest, safe_doc_raw t = true ->
-  exists v, lex_str (site_tag_doc t ++ rest) = Some (v, rest).
-Proof.
-  intros t rest Ht. unfold site_tag_doc. rewrite <- !app_assoc. rewrite lex_str_q3.
-  rewrite !app_assoc. rewrite <- (app_assoc _ q3 rest).
-  apply run_docplain; [left; reflexivity | | apply closes_q3].
-  repeat apply forallb_docplain_app; try exact Ht; reflexivity.
-Qed.
 
 (* DocumentationWriter: every character of the layout is white space or a character of t *)
 Lemma drop_ws_docplain : forall t, forallb docplain t = true -> forallb docplain (drop_ws t) = true.
@@ -288,28 +272,7 @@ Proof.
     rewrite Hc. apply (IH t'); assumption.
 Qed.
 
-Lemma docwriter_rel_shape : forall t out, site_docwriter_rel t out = true ->
-  exists o, out = q3 ++ o ++ q3 /\ layoutb t o = true.
-Proof.
-  intros t out H. unfold site_docwriter_rel in H.
-  destruct out as [|a [|b [|c o']]]; try discriminate.
-  destruct (rev o') as [|z [|y [|x [|w ro]]]] eqn:Er;
-    try (rewrite !andb_false_r in H; discriminate).
-  repeat match goal with E : _ && _ = true |- _ => apply andb_true_iff in E; destruct E end.
-  repeat match goal with E : (_ =? _) = true |- _ => apply N.eqb_eq in E end. subst.
-  exists (rev (10 :: ro)). split; [|assumption].
-  apply (f_equal (@rev N)) in Er. rewrite rev_involutive in Er. rewrite Er.
-  cbn [rev]. unfold q3. rewrite <- !app_assoc. reflexivity.
-Qed.
 
-Theorem docwriter_inert : forall t out rest, safe_doc_raw t = true -> site_docwriter_rel t out = true ->
-  exists v, lex_str (out ++ rest) = Some (v, rest).
-Proof.
-  intros t out rest Ht HR. apply docwriter_rel_shape in HR. destruct HR as [o [-> HL]].
-  rewrite <- !app_assoc. rewrite lex_str_q3.
-  apply run_docplain; [left; reflexivity | | apply closes_q3].
-  apply (layout_docplain o t); [exact Ht | exact HL].
-Qed.
 
 (* ------------------------------------------------------------------ comment *)
 
@@ -359,13 +322,6 @@ Proof.
       * intros q' Hq'. apply IH; assumption.
 Qed.
 
-Theorem block_doc_inert_isoq : forall pre post t rest,
-  safe_doc_raw pre = true -> safe_doc_raw t = true -> isoq post = true ->
-  exists v, lex_str (site_block_doc pre post t ++ rest) = Some (v, rest).
-Proof.
-  intros pre post t rest Hp Ht Hpost. apply block_doc_inert; [exact Hp | exact Ht |].
-  intros q Hq. apply run_isoq; [exact Hq | exact Hpost | apply closes_q3].
-Qed.
 
 (* ------------------------------------------------------------------ the alias docstring: \ doubled, then QQQ escaped *)
 Fixpoint paired (u : str) : bool :=
@@ -497,25 +453,8 @@ Proof.
            ++ destruct r1; [reflexivity | exact Hl].
 Qed.
 
-Theorem alias_doc_inert : forall t rest, safe_alias_doc t = true ->
-  site_alias_doc t = [] \/ exists v, lex_str (site_alias_doc t ++ rest) = Some (v, rest).
-Proof.
-  intros t rest H. destruct t as [|c t]; [left; reflexivity|]. right.
-  unfold safe_alias_doc in H. apply andb_true_iff in H. destruct H as [Hb Hl].
-  unfold site_alias_doc. rewrite <- !app_assoc. rewrite lex_str_q3.
-  apply run_docplain; [left; reflexivity | reflexivity |].
-  intros q Hq. apply (alias_run (length (dbl_bs (c :: t)))); try assumption.
-  - lia.
-  - apply paired_dbl_bs.
-  - apply nobad_dbl_bs. exact Hb.
-  - apply last_nq_dbl_bs. exact Hl.
-  - apply closes_q3.
-Qed.
 
 (* ------------------------------------------------------------------ instances of the block-docstring theorem *)
-Theorem block_line_inert : forall t rest, safe_doc_raw t = true ->
-  exists v, lex_str (site_block_line t ++ rest) = Some (v, rest).
-Proof. intros t rest H. apply block_doc_inert_isoq; [reflexivity | exact H | reflexivity]. Qed.
 
 Lemma isoq_app : forall a b, safe_doc_raw a = true -> isoq b = true -> isoq (a ++ b) = true.
 Proof.
@@ -526,13 +465,6 @@ Proof.
   destruct (c =? 92); [discriminate|]. exact Hc.
 Qed.
 
-Theorem client_title_inert : forall version t rest, safe_doc_raw version = true -> safe_doc_raw t = true ->
-  exists v, lex_str (site_client_title version t ++ rest) = Some (v, rest).
-Proof.
-  intros ver t rest Hv H. apply block_doc_inert_isoq; [reflexivity | exact H |].
-  cbn [isoq app]. change (isoq ([118;101;114;115;105;111;110;32] ++ ver ++ [41;10]) = true).
-  apply (isoq_app [118;101;114;115;105;111;110;32]); [reflexivity|]. apply isoq_app; [exact Hv | reflexivity].
-Qed.
 
 (* ------------------------------------------------------------------ refutation witnesses (vm_compute) *)
 Definition w_quote : str := [97; 34; 98].          (* a, quote, b *)
@@ -551,35 +483,15 @@ Lemma dq_block_refuted : safe_dq_block w_quote = false /\ lex_str (reflow ind4 (
 Proof. split; [reflexivity | vm_compute; discriminate]. Qed.
 Lemma dq_block_refuted_ff : safe_dq_block w_ff = false /\ safe_dq_raw w_ff = true /\ lex_str (reflow ind4 (dq w_ff) ++ []) = None.
 Proof. repeat split. Qed.
-Lemma alias_refuted : safe_alias_doc w_endq = false /\ site_alias_doc w_endq <> [] /\
-  forall v, lex_str (site_alias_doc w_endq ++ []) <> Some (v, []).
-Proof. split; [reflexivity|]. split; [discriminate|]. intros v H. vm_compute in H. discriminate. Qed.
-Definition w_docw_out : str := q3 ++ [10] ++ q3 ++ [10] ++ q3.   (* the real rendering of summary = QQQ *)
-Lemma docwriter_refuted : safe_doc_raw q3 = false /\ site_docwriter_rel q3 w_docw_out = true /\
-  forall v, lex_str (w_docw_out ++ []) <> Some (v, []).
-Proof. split; [reflexivity|]. split; [reflexivity|]. intros v H. vm_compute in H. discriminate. Qed.
-Definition w_docw_out_bsx : str := q3 ++ [10] ++ w_bsx ++ [10] ++ q3.
-Lemma docwriter_refuted_bsx : safe_doc_raw w_bsx = false /\ site_docwriter_rel w_bsx w_docw_out_bsx = true /\
-  lex_str (w_docw_out_bsx ++ []) = None.
-Proof. repeat split. Qed.
-Lemma client_title_refuted : safe_doc_raw q3 = false /\ forall v, lex_str (site_client_title [49;46;48] q3 ++ []) <> Some (v, []).
-Proof. split; [reflexivity|]. intros v H. vm_compute in H. discriminate. Qed.
-Lemma tag_doc_refuted : safe_doc_raw q3 = false /\ forall v, lex_str (site_tag_doc q3 ++ []) <> Some (v, []).
-Proof. split; [reflexivity|]. intros v H. vm_compute in H. discriminate. Qed.
-Lemma block_line_refuted : safe_doc_raw w_bsx = false /\ lex_str (site_block_line w_bsx ++ []) = None.
-Proof. split; reflexivity. Qed.
 
 (* ------------------------------------------------------------------ the guards are not vacuous *)
 Definition ex_text : str := [104; 233; 108; 108; 111; 32; 119; 8211; 28450; 47; 49; 39; 123; 125; 37; 115].  (* non-ASCII, braces, percent *)
 Example guards_nonvacuous :
-  safe_doc_raw (ex_text ++ [10; 13; 9]) = true /\
-  safe_alias_doc (ex_text ++ [34; 34; 34; 34; 92; 34; 92; 110; 13; 10; 120]) = true /\
   scalar (ex_text ++ [34; 92; 10; 13; 0; 127; 133; 8232; 128512]) = true /\
-  in_range (ex_text ++ [34; 39; 92; 10; 0; 55296; 128512]) = true.
+  in_range (ex_text ++ [34; 39; 92; 10; 0; 55296; 128512]) = true /\
+  safe_enum_default [108;111;119;45;112;114;105;111;32;50] = true.
 Proof. repeat split. Qed.
 (* the escaping sites really escape: what the lexer reads back *)
-Example alias_example : exists v, lex_str (site_alias_doc [97; 34; 34; 34; 34; 92; 110; 120]) = Some (s_alias_for ++ [97; 34; 34; 34; 34; 92; 110; 120] ++ v, []).
-Proof. exists []. reflexivity. Qed.
 
 (* ------------------------------------------------------------------ the inventory (regenerated from source) *)
 From PG Require Import Gen.T_C15.
@@ -1071,3 +983,216 @@ Example media_repr_example :
   lex_lit (site_media_repr (fun c => c =? 233) [97; 39; 233; 133; 128512; 92] ++ [125]) = Some ([97; 39; 233; 133; 128512; 92], [125])
   /\ lex_lit (site_media_repr (fun _ => false) [97; 39; 34] ++ []) = Some ([97; 39; 34], []).
 Proof. split; reflexivity. Qed.
+
+(* ================================================================== escaped docstring sites (fixes of F15c/d/g/k) *)
+Lemma repl3_app_sep : forall x n u sep, (length u <= n)%nat -> (sep =? 34) = false ->
+  repl3 x (u ++ [sep]) = repl3 x u ++ [sep].
+Proof.
+  induction n as [|n IH]; intros u sep Hlen Hs.
+  - destruct u; [|cbn in Hlen; lia]. cbn [app]. rewrite repl3_eq. reflexivity.
+  - destruct u as [|a [|b [|c r]]].
+    + cbn [app]. rewrite repl3_eq. reflexivity.
+    + cbn [app]. rewrite !repl3_eq. reflexivity.
+    + cbn [app]. rewrite (repl3_eq x a). cbv beta iota. rewrite Hs, andb_false_r.
+      rewrite (repl3_eq x a [b]). cbn [app]. f_equal; try (apply (IH [b] sep); [cbn in *; lia | exact Hs]).
+    + cbn [app]. rewrite (repl3_eq x a (b :: c :: r ++ [sep])). rewrite (repl3_eq x a (b :: c :: r)). cbv beta iota.
+      destruct ((a =? 34) && (b =? 34) && (c =? 34)).
+      * rewrite <- app_assoc. f_equal. apply IH; [cbn in *; lia | exact Hs].
+      * cbn [app]. f_equal. apply (IH (b :: c :: r) sep); [cbn in *; lia | exact Hs].
+Qed.
+
+Lemma paired_app_sep : forall n u sep, (length u <= n)%nat -> paired u = true -> (sep =? 92) = false ->
+  paired (u ++ [sep]) = true.
+Proof.
+  induction n as [|n IH]; intros u sep Hlen Hp Hs.
+  - destruct u; [|cbn in Hlen; lia]. cbn. rewrite Hs. reflexivity.
+  - destruct u as [|a r]; [cbn; rewrite Hs; reflexivity|].
+    cbn [app paired] in *. destruct (a =? 92).
+    + destruct r as [|d r']; [discriminate|]. cbn [app]. apply andb_true_iff in Hp. destruct Hp as [Hd Hp].
+      rewrite Hd. cbn [andb]. apply IH; [cbn in *; lia | exact Hp | exact Hs].
+    + apply IH; [cbn in *; lia | exact Hp | exact Hs].
+Qed.
+
+Lemma last_nq_app_sep : forall u sep, last_nq (u ++ [sep]) = negb (sep =? 34).
+Proof.
+  induction u as [|a u IH]; intro sep; [reflexivity|]. cbn [app last_nq].
+  destruct (u ++ [sep]) eqn:E; [destruct u; discriminate|]. rewrite <- E. apply IH.
+Qed.
+
+Lemma dbl_bs_app : forall a b, dbl_bs (a ++ b) = dbl_bs a ++ dbl_bs b.
+Proof. intros a b. unfold dbl_bs. apply flat_map_app. Qed.
+Lemma nul_sp_app : forall a b, nul_sp (a ++ b) = nul_sp a ++ nul_sp b.
+Proof. intros a b. unfold nul_sp. apply map_app. Qed.
+
+Lemma scalar_nobad_nul_sp : forall t, scalar t = true -> no_chars bad_raw (nul_sp t) = true.
+Proof.
+  intros t H. unfold no_chars, nul_sp, scalar in *. rewrite forallb_forall in *. intros c Hc.
+  apply in_map_iff in Hc. destruct Hc as [d [Hd Hin]]. specialize (H d Hin).
+  apply andb_true_iff in H. destruct H as [Hs Hm]. apply negb_true_iff in Hs. apply N.leb_le in Hm.
+  unfold bad_raw. destruct (d =? 0) eqn:E0; subst c; [reflexivity|].
+  rewrite E0, Hs. replace (1114111 <? d) with false by (symmetry; apply N.ltb_ge; lia). reflexivity.
+Qed.
+
+
+(* escaped text followed by a character that is neither quote nor backslash stays inside the literal *)
+Lemma doc_text_run : forall t sep X rest q, okq q -> scalar t = true -> sep_ok sep = true -> closes X rest ->
+  exists v, lex_go true q (doc_esc t ++ sep :: X) = Some (v, rest).
+Proof.
+  intros t sep X rest q Hq Ht Hsep HX. unfold sep_ok in Hsep. apply negb_true_iff in Hsep.
+  apply orb_false_iff in Hsep. destruct Hsep as [Hs1 Hbad]. apply orb_false_iff in Hs1. destruct Hs1 as [H34 H92].
+  set (u := dbl_bs (nul_sp t)).
+  replace (doc_esc t ++ sep :: X) with (repl3 esc_q3 (u ++ [sep]) ++ X).
+  - apply (alias_run (length (u ++ [sep]))); try assumption; [lia | | |].
+    + apply (paired_app_sep (length u)); [lia | apply paired_dbl_bs | exact H92].
+    + unfold no_chars. rewrite forallb_app. fold (no_chars bad_raw u). unfold u.
+      rewrite (nobad_dbl_bs _ (scalar_nobad_nul_sp t Ht)). cbn [forallb]. rewrite Hbad. reflexivity.
+    + rewrite last_nq_app_sep. rewrite H34. reflexivity.
+  - rewrite (repl3_app_sep _ (length u)) by (try lia; exact H34). rewrite <- app_assoc. reflexivity.
+Qed.
+
+Lemma isoq_closes : forall post rest, isoq post = true -> closes (post ++ q3 ++ rest) rest.
+Proof. intros post rest H q Hq. apply run_isoq; [exact Hq | exact H | apply closes_q3]. Qed.
+
+Theorem block_doc_inert : forall pre sep post t rest,
+  safe_doc_raw pre = true -> scalar t = true -> sep_ok sep = true -> isoq post = true ->
+  exists v, lex_str (site_block_doc pre (sep :: post) t ++ rest) = Some (v, rest).
+Proof.
+  intros pre sep post t rest Hp Ht Hs Hpost. unfold site_block_doc. rewrite <- !app_assoc. rewrite lex_str_q3.
+  apply run_docplain; [left; reflexivity | exact Hp |].
+  intros q Hq. cbn [app]. apply doc_text_run; [exact Hq | exact Ht | exact Hs | apply isoq_closes; exact Hpost].
+Qed.
+
+Theorem block_line_inert : forall t rest, scalar t = true ->
+  exists v, lex_str (site_block_line t ++ rest) = Some (v, rest).
+Proof. intros t rest H. apply (block_doc_inert [10] 10 [] t rest); [reflexivity | exact H | reflexivity | reflexivity]. Qed.
+
+Lemma scalar_app : forall a b, scalar a = true -> scalar b = true -> scalar (a ++ b) = true.
+Proof. intros a b Ha Hb. unfold scalar in *. rewrite forallb_app, Ha, Hb. reflexivity. Qed.
+
+Theorem client_title_inert : forall version t rest, scalar version = true -> scalar t = true ->
+  exists v, lex_str (site_client_title version t ++ rest) = Some (v, rest).
+Proof.
+  intros ver t rest Hv Ht. unfold site_client_title. apply block_line_inert.
+  apply scalar_app; [exact Ht|]. change (scalar ([32; 40; 118;101;114;115;105;111;110;32] ++ ver ++ [41]) = true).
+  apply scalar_app; [reflexivity|]. apply scalar_app; [exact Hv | reflexivity].
+Qed.
+
+Theorem tag_doc_inert : forall t rest, scalar t = true ->
+  exists v, lex_str (site_tag_doc t ++ rest) = Some (v, rest).
+Proof.
+  intros t rest Ht. unfold site_tag_doc. rewrite <- !app_assoc. rewrite lex_str_q3.
+  apply run_docplain; [left; reflexivity | reflexivity |].
+  intros q Hq. unfold s_q_endpoints. cbn [app].
+  apply doc_text_run; [exact Hq | exact Ht | reflexivity |].
+  apply (isoq_closes [32;101;110;100;112;111;105;110;116;115;46]). reflexivity.
+Qed.
+
+(* DocumentationWriter after the fix *)
+Definition scalar_c (c : N) : bool := negb (is_surrogate c) && (c <=? 1114111).
+Lemma drop_ws_P : forall (P : N -> bool) t, forallb P t = true -> forallb P (drop_ws t) = true.
+Proof.
+  intros P. induction t as [|c t IH]; intro H; [reflexivity|]. cbn [drop_ws]. destruct (doc_ws c); [|exact H].
+  cbn [forallb] in H. apply andb_true_iff in H. apply IH. apply H.
+Qed.
+Lemma layout_scalar : forall o t, forallb scalar_c t = true -> layoutb t o = true -> forallb scalar_c o = true.
+Proof.
+  induction o as [|c o IH]; intros t Ht HL; [reflexivity|]. cbn [layoutb] in HL. cbn [forallb].
+  destruct (out_ws c) eqn:Ew.
+  - assert (scalar_c c = true).
+    { unfold out_ws in Ew. apply orb_true_iff in Ew. destruct Ew as [Ew|Ew]; [apply orb_true_iff in Ew; destruct Ew as [Ew|Ew]|];
+        apply N.eqb_eq in Ew; subst c; reflexivity. }
+    rewrite H. apply (IH (drop_ws t)); [apply drop_ws_P; exact Ht | exact HL].
+  - pose proof (drop_ws_P scalar_c t Ht) as Hd.
+    destruct (drop_ws t) as [|c' t']; [discriminate|]. apply andb_true_iff in HL. destruct HL as [Hc HL].
+    apply N.eqb_eq in Hc. subst c'. cbn [forallb] in Hd. apply andb_true_iff in Hd. destruct Hd as [Hc Hd].
+    rewrite Hc. apply (IH t'); assumption.
+Qed.
+
+Lemma scalar_nul_sp : forall t, scalar t = true -> forallb scalar_c (nul_sp t) = true.
+Proof.
+  intros t H. unfold scalar, nul_sp in *. rewrite forallb_forall in *. intros c Hc.
+  apply in_map_iff in Hc. destruct Hc as [d [Hd Hin]]. destruct (d =? 0); subst c; [reflexivity | apply H; exact Hin].
+Qed.
+
+Lemma ends_lf_split : forall o, ends_lf o = true -> exists o', o = o' ++ [10].
+Proof.
+  intros o H. unfold ends_lf in H. destruct (rev o) as [|c r] eqn:E; [discriminate|].
+  apply N.eqb_eq in H. subst c. exists (rev r). apply (f_equal (@rev N)) in E. rewrite rev_involutive in E. exact E.
+Qed.
+
+Lemma doc_esc_app_lf : forall o, doc_esc (o ++ [10]) = doc_esc o ++ [10].
+Proof.
+  intro o. unfold doc_esc. rewrite nul_sp_app, dbl_bs_app. cbn [nul_sp map dbl_bs flat_map app].
+  apply (repl3_app_sep _ (length (dbl_bs (nul_sp o)))); [lia | reflexivity].
+Qed.
+
+Theorem docwriter_inert : forall t out rest, scalar t = true -> site_docwriter_rel t out = true ->
+  exists v, lex_str (out ++ rest) = Some (v, rest).
+Proof.
+  intros t out rest Ht HR. unfold site_docwriter_rel in HR.
+  destruct out as [|a [|b [|c e3]]]; try discriminate.
+  destruct (rev e3) as [|z [|y [|x re]]] eqn:Er; try (rewrite !andb_false_r in HR; discriminate).
+  repeat match goal with E : _ && _ = true |- _ => apply andb_true_iff in E; destruct E end.
+  repeat match goal with E : (_ =? _) = true |- _ => apply N.eqb_eq in E end. subst.
+  match goal with E : str_eqb _ _ = true |- _ => apply str_eqb_eq in E; rename E into He end.
+  apply (f_equal (@rev N)) in Er. rewrite rev_involutive in Er. cbn [rev] in Er. rewrite <- !app_assoc in Er. cbn [app] in Er.
+  set (o := doc_unesc (rev re)) in *.
+  match goal with E : ends_lf o = true |- _ => destruct (ends_lf_split o E) as [o' Ho'] end.
+  match goal with E : layoutb _ o = true |- _ => pose proof (layout_scalar o _ (scalar_nul_sp t Ht) E) as Hso end.
+  rewrite Er. rewrite <- He. rewrite Ho'. rewrite doc_esc_app_lf.
+  change (34 :: 34 :: 34 :: (doc_esc o' ++ [10]) ++ [34; 34; 34]) with (q3 ++ (doc_esc o' ++ [10]) ++ q3).
+  rewrite <- !app_assoc. rewrite lex_str_q3. cbn [app].
+  apply doc_text_run; [left; reflexivity | | reflexivity | apply closes_q3].
+  rewrite Ho' in Hso. rewrite forallb_app in Hso. apply andb_true_iff in Hso. exact (proj1 Hso).
+Qed.
+
+(* alias docstring after the fix: every quote escaped *)
+Lemma alias_esc1_step : forall c q X rest, okq q -> scalar_c c = true ->
+  (forall q', okq q' -> exists v, lex_go true q' X = Some (v, rest)) ->
+  exists v, lex_go true q (alias_esc1 c ++ X) = Some (v, rest).
+Proof.
+  intros c q X rest Hq Hc HX. unfold alias_esc1.
+  assert (Hbs : forall d, simple_escape d = Some d -> exists v, lex_go true q (92 :: d :: X) = Some (v, rest)).
+  { intros d Hd. assert (E : lex_go true q (92 :: d :: X) = consf d (lex_go true Nrm X)).
+    { destruct Hq as [-> | ->]; [|rewrite afterCR_not10 by reflexivity]; rewrite step_bs; apply step_esc_simple; exact Hd. }
+    rewrite E. apply consf_some. apply HX. left; reflexivity. }
+  destruct (c =? 0) eqn:E0.
+  - cbn [app]. apply step_docplain; [reflexivity | exact Hq | exact HX].
+  - destruct (c =? 92) eqn:E92; [cbn [app]; apply Hbs; reflexivity|].
+    destruct (c =? 34) eqn:E34; [cbn [app]; apply Hbs; reflexivity|].
+    cbn [app]. apply step_docplain; [| exact Hq | exact HX].
+    unfold docplain, bad_raw. rewrite E34, E92, E0. unfold scalar_c in Hc. apply andb_true_iff in Hc. destruct Hc as [Hs Hm].
+    apply negb_true_iff in Hs. rewrite Hs. apply N.leb_le in Hm.
+    replace (1114111 <? c) with false by (symmetry; apply N.ltb_ge; lia). reflexivity.
+Qed.
+
+Lemma alias_esc_run : forall t q X rest, okq q -> scalar t = true -> closes X rest ->
+  exists v, lex_go true q (alias_esc t ++ X) = Some (v, rest).
+Proof.
+  induction t as [|c t IH]; intros q X rest Hq Ht HX.
+  - apply HX. exact Hq.
+  - unfold scalar in Ht. cbn [forallb] in Ht. apply andb_true_iff in Ht. destruct Ht as [Hc Ht].
+    unfold alias_esc. cbn [flat_map]. rewrite <- app_assoc. apply alias_esc1_step; [exact Hq | exact Hc |].
+    intros q' Hq'. apply IH; assumption.
+Qed.
+
+Theorem alias_doc_inert : forall t rest, scalar t = true ->
+  site_alias_doc t = [] \/ exists v, lex_str (site_alias_doc t ++ rest) = Some (v, rest).
+Proof.
+  intros t rest H. destruct t as [|c t]; [left; reflexivity|]. right.
+  unfold site_alias_doc. rewrite <- !app_assoc. rewrite lex_str_q3.
+  apply run_docplain; [left; reflexivity | reflexivity |].
+  intros q Hq. apply alias_esc_run; [exact Hq | exact H | apply closes_q3].
+Qed.
+
+(* regression: the former witnesses *)
+Example fixed_F15c : exists v, lex_str (site_alias_doc w_endq ++ []) = Some (v, []).
+Proof. eexists. reflexivity. Qed.
+Example fixed_F15d : site_docwriter_rel q3 (q3 ++ [10] ++ esc_q3 ++ [10] ++ q3) = true /\
+  exists v, lex_str ((q3 ++ [10] ++ esc_q3 ++ [10] ++ q3) ++ []) = Some (v, []).
+Proof. split; [reflexivity | eexists; reflexivity]. Qed.
+Example fixed_F15g : exists v, lex_str (site_client_title [49;46;48] q3 ++ []) = Some (v, []).
+Proof. eexists. reflexivity. Qed.
+Example fixed_F15k : (exists v, lex_str (site_tag_doc q3 ++ []) = Some (v, [])) /\
+  (exists v, lex_str (site_block_line w_bsx ++ []) = Some (v, [])).
+Proof. split; eexists; reflexivity. Qed.
